@@ -1,6 +1,6 @@
 //! C10 — message header: layout, type mapping and size semantics.
 //! E3, exhaustive: all 256 type codes, all 65 536 size values x boundary (count, number) pairs,
-//! full count and number planes for size = 0xFFFF, layout under distinct-value plans.
+//! full count and number planes for size = 0xFFFF, layout under distinct-value plans; type x size cross product.
 
 use crate::core::*;
 use crate::enc::*;
@@ -58,13 +58,18 @@ fn size_class(size: u16) -> &'static str {
 
 /// All size-semantics clauses for one header.
 fn check_sizes(ctx: &Ctx, size: u16, count: u16, number: u16, st: &mut Stats) {
+    check_sizes_t(ctx, 2, size, count, number, st)
+}
+
+fn check_sizes_t(ctx: &Ctx, typ: u8, size: u16, count: u16, number: u16, st: &mut Stats) {
     use uom::si::information::byte;
-    let mut h = MsgHeader::simple(2, 19000, 1000);
+    let mut h = MsgHeader::simple(typ, 19000, 1000);
     h.size = size;
     h.count = count;
     h.number = number;
-    let wit = || json!({"op": "sizes", "size": size, "count": count, "number": number});
-    let cls = size_class(size);
+    let wit = || json!({"op": "sizes", "type": typ, "size": size, "count": count, "number": number});
+    let cls = if typ == 2 { size_class(size).to_string() } else { format!("{}:type_other_than_2", size_class(size)) };
+    let cls = cls.as_str();
     let d = decode(&h);
     st.eval();
     macro_rules! acc {
@@ -302,7 +307,26 @@ pub fn run(ctx: &'static Ctx) -> (&'static str, Value, Vec<&'static str>) {
             st
         })
         .reduce(Stats::new, Stats::merge);
-    let stats = stats.merge(s1).merge(s2);
+    // size semantics must not depend on the type code: all 256 type codes x all 65536 sizes
+    // (one count/number pair each) and x the boundary sizes with all 49 pairs; channel codes crossed too
+    let s3: Stats = (0u32..256)
+        .into_par_iter()
+        .fold(Stats::new, |mut st, t| {
+            for size in 0u32..65536 {
+                check_sizes_t(ctx, t as u8, size as u16, 3, 0x0102, &mut st);
+            }
+            for &size in &[0u16, 1, 1208, 0x7FFF, 0x8000, 0xFFFE, 0xFFFF] {
+                for &c in &b {
+                    for &n in &b {
+                        check_sizes_t(ctx, t as u8, size, c, n, &mut st);
+                    }
+                }
+            }
+            st.nontrivial(&[b'x', t as u8]);
+            st
+        })
+        .reduce(Stats::new, Stats::merge);
+    let stats = stats.merge(s1).merge(s2).merge(s3);
     let cov = stats.coverage(
         "all 256 type codes; six channel codes; 5 layout plans; all 65536 size values x 7x7 boundary (count, number) pairs; for size 0xFFFF (thorough: +63 sizes) all 65536 counts x 7 numbers and 7 counts x all 65536 numbers. non-trivial = distinct code / size value / plane coordinate",
         true,
@@ -321,13 +345,15 @@ pub fn run(ctx: &'static Ctx) -> (&'static str, Value, Vec<&'static str>) {
 pub fn replay(ctx: &'static Ctx, case: &Value) {
     let mut st = Stats::new();
     match case["op"].as_str() {
-        Some("sizes") => check_sizes(
+        Some("sizes") => check_sizes_t(
             ctx,
+            case["type"].as_u64().unwrap_or(2) as u8,
             case["size"].as_u64().unwrap_or(0) as u16,
             case["count"].as_u64().unwrap_or(0) as u16,
             case["number"].as_u64().unwrap_or(0) as u16,
             &mut st,
         ),
+        Some("sizes") if false => {}
         Some("type") => check_type(ctx, case["code"].as_u64().unwrap_or(0) as u8, &mut st),
         Some("layout") => check_layout(ctx, case["plan"].as_u64().unwrap_or(0) as u8, &mut st),
         _ => check_channels(ctx, &mut st),
